@@ -268,7 +268,8 @@ class RuntimeState(utils.NiceRepr):
         """
         self._global_state = copy.deepcopy(DEFAULT_RUNTIME_STATE)
         if default_state:
-            self._global_state.update(default_state)
+            # copy, the caller's defaults may hold mutable values (REQUIRES)
+            self._global_state.update(copy.deepcopy(default_state))
         self._inline_state = {}
 
     def to_dict(self):
